@@ -452,7 +452,7 @@ Proof.
   destruct (step w o) as [[x|?|?|] w1] eqn:E; try discriminate.
   eapply IH; [|exact H]. eapply step_winv2; eassumption.
 Qed.
-Lemma winv2_0 : winv2 world0.
+Lemma winv2_0 ct : winv2 (world0 ct).
 Proof.
   split; [apply winv0|]. split.
   - intros b l H. discriminate.
@@ -460,7 +460,7 @@ Proof.
 Qed.
 
 (* C15_terminator, world level *)
-Lemma terminator_world (ops : list op) (w : world) : run_ops world0 ops = Some w ->
+Lemma terminator_world (ct : cty) (ops : list op) (w : world) : run_ops (world0 ct) ops = Some w ->
   (forall k x, get_str w k = Some x ->
      match sbuf x with
      | None => slen x = 0
@@ -469,7 +469,7 @@ Lemma terminator_world (ops : list op) (w : world) : run_ops world0 ops = Some w
   (forall k1 k2 x1 x2 b, get_str w k1 = Some x1 -> get_str w k2 = Some x2 ->
      sbuf x1 = Some b -> sbuf x2 = Some b -> k1 = k2).
 Proof.
-  intros Hrun. destruct (run_ops_winv2 ops world0 w winv2_0 Hrun) as [Hw [Hf Hok]]. split.
+  intros Hrun. destruct (run_ops_winv2 ops (world0 ct) w (winv2_0 ct) Hrun) as [Hw [Hf Hok]]. split.
   - intros k x Hk. exact (Hok k x (get_str_nth _ _ _ Hk)).
   - intros k1 k2 x1 x2 b H1 H2 E1 E2. destruct Hw as [A B C D].
     eapply distinct_slots; [exact C|apply get_str_nth; exact H1|apply get_str_nth; exact H2|exact E1|exact E2].
